@@ -437,7 +437,7 @@ func main() {
 			wr.Flush()
 		case <-time.After(timeout):
 			// the case hangs: say so and leave; the orchestrator restarts after this case
-			os.Stdout = origOut
+			// (os.Stdout stays redirected: whatever the abandoned goroutine still prints must not reach the protocol stream)
 			fmt.Fprintln(wr, "TIMEOUT")
 			wr.Flush()
 			os.Exit(3)
